@@ -772,14 +772,23 @@ class Prov:
                     out.append(self.eval(fn, n, env, d))
         return tuple(out)
 
+    def fmt_term(self, fn, e, env, d):
+        args = self.macro_args(fn, e, env, d)
+        fs = fmt_string(e['text'])
+        if e['name'].split('::')[-1] in ('format', 'format_args', 'format_ident') and re.search(r'\{[A-Za-z_0-9]', fs):
+            plan = fmt_plan(e['text'], len(args))
+            if plan is not None:
+                return ('fmt', plan[0], tuple(args[i] for i in plan[1]))
+        return ('fmt', fs, args)
+
     def ev_macro(self, fn, e, env, d):
         name = e['name'].split('::')[-1]
         if name in TEMPLATE_MACROS:
             return ('tmpl', self.site_key(fn, e), self.envid(env))
         if name in ('format', 'format_args', 'concat', 'stringify'):
-            return ('fmt', fmt_string(e['text']), self.macro_args(fn, e, env, d))
+            return self.fmt_term(fn, e, env, d)
         if name == 'format_ident':
-            return ('ident', ('fmt', fmt_string(e['text']), self.macro_args(fn, e, env, d)))
+            return ('ident', self.fmt_term(fn, e, env, d))
         if name in DIVERGING_MACROS:
             return ('diverge', name)
         if name == 'vec':
@@ -1170,6 +1179,19 @@ def guards_of_stmt(st):
     return out
 
 
+def _walk_nodes(e):
+    stack = [e]
+    while stack:
+        n = stack.pop()
+        if isinstance(n, list):
+            stack.extend(n)
+        elif isinstance(n, dict):
+            yield n
+            for key, v in n.items():
+                if isinstance(v, (dict, list)) and not key.startswith('_'):
+                    stack.append(v)
+
+
 def path_conds(fn, node, stop=None):
     """conditions that must hold for control to reach `node` inside fn (outermost first).
     entries: ('if', cond_node, polarity) | ('match', scrut_node, patsummary, armidx) | ('letelse', init, pat)
@@ -1184,6 +1206,10 @@ def path_conds(fn, node, stop=None):
                 out.append(('if', parent['cond'], False))
         elif k == 'match' and isinstance(role, tuple) and role[0] == 'arms':
             arm = parent['arms'][role[1]]
+            g_ = arm.get('guard')
+            if isinstance(g_, dict) and g_.get('k') != 'letx' and not any(x_ is node or x_ is child for x_ in _walk_nodes(g_)):
+                # the body of `pat if guard => body` runs only when the guard held
+                out.append(('if', g_, True))
             out.append(('match', parent['scrut'], pat_summary(arm['pat']), role[1]))
         elif k == 'block' and isinstance(role, tuple) and role[0] == 'stmts':
             for st in reversed(parent['stmts'][:role[1]]):
@@ -1193,6 +1219,10 @@ def path_conds(fn, node, stop=None):
                 out.extend(reversed(guards_of_stmt(st)))
         elif k == 'let' and role == 'els':
             out.append(('nomatch', parent['init'], pat_summary(parent['pat'])))
+        elif k == 'mcall' and parent.get('method') == 'then' and isinstance(role, tuple) and role[0] == 'args' and \
+                'bool' in (parent['recv'].get('ty', '') + parent['recv'].get('aty', '')):
+            # `cond.then(|| ..)`: the closure runs only when the receiver is true
+            out.append(('if', parent['recv'], True))
         elif k == 'binary' and role == 'r' and parent.get('op') in ('&&', '||'):
             # short-circuit: the right operand runs only if the left one is true (&&) / false (||)
             out.append(('if', parent['l'], parent['op'] == '&&'))
@@ -1259,6 +1289,51 @@ def fmt_string(text):
     """the format string literal of a format!-like macro call-site snippet"""
     m = re.search(r'"((?:[^"\\]|\\.)*)"', text, re.S)
     return m.group(1) if m else text
+
+
+def fmt_plan(text, nargs):
+    """A format!-like call site with named / captured / indexed placeholders read positionally: (the format string with every
+    placeholder written `{}` or `{:spec}`, for each placeholder the index of its value in the macro's argument list).  rustc's
+    argument list is: the explicit arguments in source order (positional, then `name = value`), then the captured identifiers
+    (`{path}`) in order of first appearance.  None when the text does not add up to `nargs` arguments."""
+    fs = fmt_string(text)
+    phs = []
+    for m in re.finditer(r'\{\{|\}\}|\{([^{}]*)\}', fs):
+        if m.group(0) in ('{{', '}}'):
+            continue
+        name, _, spec = m.group(1).partition(':')
+        phs.append((m.start(), m.end(), name.strip(), spec))
+    at = text.find(fs)
+    rest = text[at + len(fs):] if at >= 0 else ''
+    given = re.findall(r',\s*([A-Za-z_][A-Za-z0-9_]*)\s*=[^=]', rest)
+    captured = []
+    for _, _, name, _ in phs:
+        if name and not name.isdigit() and name not in given and name not in captured:
+            captured.append(name)
+    n_explicit = nargs - len(captured)
+    n_pos = n_explicit - len(given)
+    if n_explicit < 0 or n_pos < 0:
+        return None
+    order, nxt = [], 0
+    for _, _, name, _ in phs:
+        if name == '':
+            idx, nxt = nxt, nxt + 1
+        elif name.isdigit():
+            idx = int(name)
+        elif name in given:
+            idx = n_pos + given.index(name)
+        else:
+            idx = n_explicit + captured.index(name)
+        if idx >= nargs:
+            return None
+        order.append(idx)
+    out, last = [], 0
+    for a, b, _, spec in phs:
+        out.append(fs[last:a])
+        out.append('{:%s}' % spec if spec else '{}')
+        last = b
+    out.append(fs[last:])
+    return ''.join(out), order
 
 
 # ------------------------------------------------------------------------------------------------
